@@ -206,6 +206,10 @@ func (vr *VerifiableReader) cacheWithReader(ctx context.Context, currentDepth in
 			if !ok {
 				break
 			}
+			if err := checkChunkEntry(nr, chunkOffset, chunkSize); err != nil {
+				rErr = err
+				return false
+			}
 			nr += chunkSize
 
 			if err := sem.Acquire(ctx, 1); err != nil {
@@ -435,12 +439,18 @@ func (sf *file) ReadAt(p []byte, offset int64) (int, error) {
 		if !ok {
 			break
 		}
+		if err := checkChunkEntry(offset+int64(nr), chunkOffset, chunkSize); err != nil {
+			return 0, err
+		}
 		var (
 			id           = genID(sf.id, chunkOffset, chunkSize)
 			lowerDiscard = positive(offset - chunkOffset)
 			upperDiscard = positive(chunkOffset + chunkSize - (offset + int64(len(p))))
 			expectedSize = chunkSize - upperDiscard - lowerDiscard
 		)
+		if expectedSize <= 0 || int64(nr)+expectedSize > int64(len(p)) {
+			return 0, fmt.Errorf("invalid chunk entry (offset:%d, size:%d): not aligned with the preceding chunk", chunkOffset, chunkSize)
+		}
 
 		// Check if the content exists in the cache
 		if r, err := sf.gr.cache.Get(id); err == nil {
@@ -516,6 +526,9 @@ func (sf *file) GetPassthroughFd(mergeBufferSize int64, mergeWorkerCount int) (u
 		if !ok {
 			break
 		}
+		if err := checkChunkEntry(offset, chunkOffset, chunkSize); err != nil {
+			return 0, nil, err
+		}
 		// Check if any chunk size exceeds merge buffer size to avoid bounds out of range
 		if chunkSize > mergeBufferSize {
 			hasLargeChunk = true
@@ -577,6 +590,10 @@ func (sf *file) prefetchEntireFileSequential(entireCacheID string) error {
 		chunkOffset, chunkSize, chunkDigestStr, ok := sf.fr.ChunkEntryForOffset(offset)
 		if !ok {
 			break
+		}
+		if err := checkChunkEntry(offset, chunkOffset, chunkSize); err != nil {
+			w.Abort()
+			return err
 		}
 
 		id := genID(sf.id, chunkOffset, chunkSize)
@@ -834,6 +851,17 @@ func (gr *reader) verifyChunk(id uint32, p []byte, chunkDigestStr string) error 
 		return fmt.Errorf("invalid chunk: not verified")
 	}
 
+	return nil
+}
+
+// checkChunkEntry validates a chunk entry handed out by the metadata store for the
+// given file offset. The entries come from the (untrusted) TOC: an entry that doesn't
+// contain the offset it was looked up for would lead to negative slice bounds or to
+// loops that never advance.
+func checkChunkEntry(offset, chunkOffset, chunkSize int64) error {
+	if chunkOffset < 0 || chunkSize <= 0 || offset < chunkOffset || offset-chunkOffset >= chunkSize {
+		return fmt.Errorf("invalid chunk entry (offset:%d, size:%d) for file offset %d", chunkOffset, chunkSize, offset)
+	}
 	return nil
 }
 
